@@ -72,7 +72,12 @@ MANIFEST = dict(
          'save that may raise half-way, every view still denotes what the file held and unowned lumps are untouched '
          '(c10_aborted_save_keeps_content), and any further looks followed by a save that completes are lossless with respect to the '
          'original file (c10_retry_after_aborted_save_lossless); without it a closed history loses a lump on the second save (the pinned '
-         'tree before fix c8f05ec).',
+         'tree before the repair). The repair on the integrated tree is the late-pop form of the loop (read the cached value, run the '
+         'writer, consume its result, only then delete the cache entry: generated flag bsp_save_pops_late), which equals pop-first + '
+         'put-back-on-raise when no writer looks at its own view (obligation late_pop_only_where_no_writer_looks_at_its_own_view). '
+         'Header versions of lumps are cells no look touches: a writer may store into the header of its main lump only the number the '
+         'reader recorded (self.static_prop_version.version, looked up in a table keyed by the header number); then save leaves every '
+         'lump version as it was (c10_header_version_store_of_recorded_number_is_invisible; another number refuted).',
     note='Assumed in the theorems (visible hypotheses): each lump writer inverts its reader on the file\'s lumps (codec_ok, '
          'wr_len_ok: property C11); decompress (compress d) = d (CPython lzma). The container theorem is about the model '
          'Fmt/BspContainer.v, tied to BSP.read/BSP.save by byte-exact correspondence on random containers (not by a translator of '
@@ -1202,6 +1207,14 @@ def run(ck: Ck) -> None:
             # writer looks at its own view (it would see the cached value instead of the cleared lump)
             'late_pop_only_where_no_writer_looks_at_its_own_view':
                 f'negb bsp_save_pops_late || forallb (fun i => negb (mem i (v_wdeps (decl bsp_graph i)))) (seq 0 ({n}))',
+            # header versions of lumps (cells of the file no look touches; theorem c10_header_version_store_of_recorded_number_is_invisible):
+            # a writer stores into the header of its view's MAIN lump only, and only the number the reader recorded for this object
+            # (self.static_prop_version.version); a writer that stores another number (own mutation r4D) changes the lump version
+            'writers_store_only_the_header_version_the_reader_recorded':
+                'forallb (fun t => snd t && mem (snd (fst t)) (firstn 1 (own bsp_graph (fst (fst t))))) bsp_version_stores',
+            # ... and that number is the header number of the file: the reader looks the version up in a table keyed by `.version`
+            'recorded_version_has_the_header_number_of_the_file':
+                'match bsp_version_stores with nil => true | _ => bsp_version_table_keyed_by_header_number end',
             'readers_only_read_the_views_they_look_at': 'forallb (fun u => Nat.eqb (snd u) 0) bsp_reader_uses',
             'writers_only_read_or_append_to_the_views_they_look_at': 'forallb (fun u => Nat.leb (snd u) 1) bsp_writer_uses',
         })
@@ -1510,12 +1523,17 @@ def run(ck: Ck) -> None:
                    'cleared_lumps_are_never_stored_conditionally'):
             if inst.get(nm) is False:
                 ck.explain('instance:' + nm)
+    if 'game-lump-directory' in kinds:
+        for nm in ('writers_store_only_the_header_version_the_reader_recorded', 'recorded_version_has_the_header_number_of_the_file'):
+            if inst.get(nm) is False:
+                ck.explain('instance:' + nm)
     if 'lost-after-aborted-save' in kinds and inst.get('aborted_save_puts_the_popped_view_back') is False:
         ck.explain('instance:aborted_save_puts_the_popped_view_back')
     # a false codec premise is explained by a concrete look + save history that changes content, raises or is unstable
     if kinds & {'hangs', 'oracle-raises'}:
         ck.explain('correspondence:')
-    if kinds & {'view-content-changed', 'save-raises', 'look-raises', 'reread-fails', 'second-save-differs', 'raw-changed', 'hangs'}:
+    if kinds & {'view-content-changed', 'save-raises', 'look-raises', 'reread-fails', 'second-save-differs', 'raw-changed', 'hangs',
+                'lost-after-aborted-save', 'game-lump-directory'}:
         for nm, ok in codec.items():
             if not ok:
                 ck.explain('instance:' + nm)
